@@ -92,20 +92,31 @@ def mustAtoaLoop (col : Nat) : List Bytes → Res (List Int)
 
 def mustAtoa (f : Bytes) (col : Nat) : Res (List Int) := mustAtoaLoop col (splitOn 44 f)
 
-/-- body of `parseBedN` (before the deferred `handlePanic`) -/
-def parseBody (n : Nat) (line : Bytes) : Res Rec :=
-  let f := splitN 9 (n + 1) line
-  if f.length < n then .ret .badType else do
+/-- columns 1–3 (`parseBed3` after its guard); the wider parsers read the same leading columns
+    in the same left-to-right order, so each is written as an extension of the previous one -/
+def parse3 (f : List Bytes) : Res Rec := do
   let chrom ← idx f 0
   let start ← (do mustAtoi (← idx f 1) 1)
   let stop ← (do mustAtoi (← idx f 2) 2)
-  if n == 3 then pure { width := 3, chrom, start, stop } else do
+  pure { width := 3, chrom, start, stop }
+
+def parse4 (f : List Bytes) : Res Rec := do
+  let r ← parse3 f
   let name ← idx f 3
-  if n == 4 then pure { width := 4, chrom, start, stop, name } else do
+  pure { r with width := 4, name }
+
+def parse5 (f : List Bytes) : Res Rec := do
+  let r ← parse4 f
   let score ← (do mustAtoi (← idx f 4) 4)
-  if n == 5 then pure { width := 5, chrom, start, stop, name, score } else do
+  pure { r with width := 5, score }
+
+def parse6 (f : List Bytes) : Res Rec := do
+  let r ← parse5 f
   let strand ← (do mustAtos (← idx f 5) 5)
-  if n == 6 then pure { width := 6, chrom, start, stop, name, score, strand } else do
+  pure { r with width := 6, strand }
+
+def parse12 (f : List Bytes) : Res Rec := do
+  let r ← parse6 f
   let thickStart ← (do mustAtoi (← idx f 6) 6)
   let thickEnd ← (do mustAtoi (← idx f 7) 7)
   let rgb ← (do mustAtoRgb (← idx f 8) 8)
@@ -113,8 +124,17 @@ def parseBody (n : Nat) (line : Bytes) : Res Rec :=
   let blockSizes ← (do mustAtoa (← idx f 10) 10)
   let blockStarts ← (do mustAtoa (← idx f 11) 11)
   if blockCount != blockSizes.length || blockCount != blockStarts.length then .ret .blocks
-  else pure { width := 12, chrom, start, stop, name, score, strand, thickStart, thickEnd, rgb,
-              blockCount, blockSizes, blockStarts }
+  else pure { r with width := 12, thickStart, thickEnd, rgb, blockCount, blockSizes, blockStarts }
+
+/-- body of `parseBedN` (before the deferred `handlePanic`) -/
+def parseBody (n : Nat) (line : Bytes) : Res Rec :=
+  let f := splitN 9 (n + 1) line
+  if f.length < n then .ret .badType
+  else if n == 3 then parse3 f
+  else if n == 4 then parse4 f
+  else if n == 5 then parse5 f
+  else if n == 6 then parse6 f
+  else parse12 f
 
 /-- `parseBed3` … `parseBed12` -/
 def parseBed (n : Nat) (line : Bytes) : Res Rec := handlePanic (parseBody n line)
